@@ -1097,7 +1097,13 @@ fn eval_c17(case: &Case, sc: &mut Scratch, res: &mut EvalResult) {
                                 res.violations.push(Violation {
                                     property: "C17".into(),
                                     class: "REWRITE_OF_UNCHANGED".into(),
-                                    detail: format!("{ctxs}|{}|{}", file_kind(k), if muts.is_empty() { "state-only".to_string() } else { muts.join("+") }),
+                                    // how often the file was (re)written in this one run: a file that
+                                    // two writers fight over is a different defect from a compare that
+                                    // does not recognise an up-to-date file
+                                    detail: format!("{ctxs}|{}|{}", file_kind(k), {
+                                        let full_writes = muts.iter().filter(|m| matches!(m.as_str(), "write" | "create" | "rename")).count();
+                                        if muts.is_empty() { "state_only" } else if full_writes >= 2 { "written_twice" } else { "written_once" }
+                                    }),
                                     message: format!(
                                         "run #{idx} touched {k} although its content was already up to date (ops {:?}, inode {}→{}, mtime changed: {})",
                                         muts,
